@@ -3,3 +3,6 @@ import MtailVerif.Props.C19
 #print axioms MtailVerif.C19.oneshot_terminates
 #print axioms MtailVerif.C19.each_line_once_per_program
 #print axioms MtailVerif.C19.witness_result_schedule_independent
+#print axioms MtailVerif.C19.streams_skeletons
+#print axioms MtailVerif.C19.line_skeletons
+#print axioms MtailVerif.C19.dispatch_skeletons
